@@ -60,21 +60,26 @@ Theorem C24_generated_tags_overlong_refuted :
 Proof. exact generated_tags_overlong_refuted. Qed.
 Print Assumptions C24_generated_tags_overlong_refuted.
 
-(* tag agreement — PARTIAL. Full statement (C24_tag_iff): for every tag of at most 256 bytes, every instance name the
-   daemon accepts and every component that is absent or a name the daemon accepts,
-     sc_security_tag_validate tag inst comp = true  <->  exists h name, go_parse_security_tag tag = Some (inst, comp, h, name).
-   Proved here: the direction from right to left (whatever ParseSecurityTag attributes to (inst, comp) snap-confine accepts
-   for (inst, comp)), and, from left to right, that snap-confine only accepts a tag for the instance and component
-   literally written in it (submatches 1 and 7). Missing: that a string matching snap-confine's expression with a valid
-   instance is also parsed by ParseSecurityTag (inversion of the whole expression against strings.SplitN); that direction
-   is monitored on the implementations by the CTag cases of the differential run. *)
-Theorem C24_tag_iff_partial : forall (tag inst : bytes) (comp : option bytes),
+(* tag agreement, full for tags within snap-confine's length limit: for every tag of at most 256 bytes, every instance
+   name the daemon accepts and every component that is absent or a name the daemon accepts, snap-confine accepts the tag
+   for (instance, component) exactly when ParseSecurityTag parses it as a tag of that instance and component.
+   (Left to right: inversion of snap-confine's expression — extracted from snap.c — against strings.SplitN/Cut; right to
+   left: ParseSecurityTag's result rebuilt by the daemon's own generator, then C24_generated_tags_accepted.) *)
+Theorem C24_tag_iff : forall (tag inst : bytes) (comp : option bytes),
   (List.length tag <= 256)%nat ->
-  ((exists h name, go_parse_security_tag tag = Some (inst, comp, h, name)) -> sc_security_tag_validate tag inst comp = true) /\
-  (sc_security_tag_validate tag inst comp = true ->
-     tag_group1 tag = inst /\ match comp with Some cn => tag_group7 tag = Some cn | None => tag_group7 tag = None end).
-Proof. exact tag_iff_partial. Qed.
-Print Assumptions C24_tag_iff_partial.
+  go_validate_instance inst = true -> comp_ok go_validate_snap comp = true ->
+  (sc_security_tag_validate tag inst comp = true <->
+   exists h name, go_parse_security_tag tag = Some (inst, comp, h, name)).
+Proof. exact tag_iff. Qed.
+Print Assumptions C24_tag_iff.
+
+(* without any hypothesis on the names: snap-confine accepts a tag only for the instance and component literally written
+   in it (submatches 1 and 7 of its expression) *)
+Theorem C24_tag_names_instance : forall (tag inst : bytes) (comp : option bytes),
+  sc_security_tag_validate tag inst comp = true ->
+  tag_group1 tag = inst /\ match comp with Some cn => tag_group7 tag = Some cn | None => tag_group7 tag = None end.
+Proof. exact tag_names_instance. Qed.
+Print Assumptions C24_tag_names_instance.
 
 (* non-vacuity *)
 Example C24_names_nonvacuous :
